@@ -6,7 +6,7 @@ tier="${1:-quick}"; shift
 ids="$@"; [ -z "$ids" ] && ids=$(jq -r '.checks[].property_id' "$VERIF_DIR/MANIFEST.json")
 rc=0
 for id in $ids; do
-  out=$("$VERIF_DIR/build/vcheck" run "$id" "$tier" 2>&1); r=$?
+  out=$("$(vbin "$id")" run "$id" "$tier" 2>&1); r=$?
   echo "$out" | grep -E "^(VIOLATION|KNOWN-FINDING|SUMMARY|ENGINE-ERROR)" | cut -c1-300
   [ $r -ne 0 ] && rc=$r && echo "  -> $id exit $r"
 done
